@@ -204,12 +204,17 @@ class Models:
             for st in c.node.body:
                 if not isinstance(st, ast.FunctionDef):
                     continue
-                for d in st.decorator_list:
+                for pos_, d in enumerate(st.decorator_list):
                     call = d if isinstance(d, ast.Call) else None
                     name = dotted_name(call.func if call else d)
                     if name is None:
                         continue
                     short = name.split(".")[-1]
+                    if short in ("field_validator", "model_validator") and pos_ != 0:
+                        # pydantic collects the descriptor the validator decorator returns from the class namespace: when
+                        # another decorator (@classmethod written ABOVE it, a wrapper) is applied on top, the attribute is no
+                        # longer that descriptor and the validator is silently never run
+                        continue
                     if short == "field_validator":
                         fields = tuple(a.value for a in (call.args if call else []) if isinstance(a, ast.Constant))
                         mode = "after"
